@@ -12,6 +12,7 @@ structure CallSite where
   callee : String                     -- `yaml.load` / `yaml.dump`
   args : List String                  -- positional arguments (source text; `self.x` resolved)
   kwargs : List (String × String)     -- keyword arguments
+  returned : Bool                     -- the call's result is what `__call__` returns
   deriving DecidableEq, Repr
 
 end YatimlModel
